@@ -30,6 +30,7 @@ from .tsseq import Lin, add, lin, mk, mul, sym
 
 # ----------------------------------------------------------------------------- values
 _RE_FUNCS = ('split', 'findall', 'sub', 'subn', 'match', 'fullmatch', 'search', 'finditer', 'compile', 'escape')
+_SENTINELS: dict = {}
 _IS_GEN: dict = {}        # function node -> does its own body yield (a fact of the syntax tree, computed once per node)
 
 
@@ -914,6 +915,12 @@ class PosInterp:
             if fn is not None:
                 return fn
             for st in self.mod.tree.body:
+                tg_ = st.target if isinstance(st, ast.AnnAssign) else st.targets[0] if isinstance(st, ast.Assign) and len(st.targets) == 1 else None
+                if isinstance(tg_, ast.Name) and tg_.id == e.id and isinstance(getattr(st, 'value', None), ast.Call) and norm(st.value.func) == 'object' \
+                        and not st.value.args:
+                    # a module-level sentinel (`_MISSING = object()`): one object per module, equal only to itself
+                    gl_ = _SENTINELS.setdefault((self.mod.name, e.id), Obj('Sentinel', {}, e.id))
+                    return gl_
                 if isinstance(st, ast.AnnAssign) and isinstance(st.target, ast.Name) and st.target.id == e.id and st.value is not None \
                         and (isinstance(st.value, (ast.Dict, ast.List, ast.Set)) or (isinstance(st.value, ast.Call) and norm(st.value.func) in ('dict', 'list', 'set'))):
                     # a mutable module-level table (`TOKEN_MODELS: dict[..] = {}`): one object per module for the lifetime of this interpreter
